@@ -131,6 +131,8 @@ class AdditionalNameWrapper(Object):
     def get_attr(self, ctx, name):
         # type: (EvalCtx, str) -> Object | Name | None
         if self.value:
+            if name in self._names and name not in self.value._attrs:
+                return self._names[name]  # import pkg.name in this very file
             return self.value.get_attr(ctx, name) or self._names.get(name)
         return None
 
